@@ -133,10 +133,12 @@ def big_pairs(fn):
 
 prop('C03',
      harnesses=[
-         {'name': 'C03_Append', 'types': {'quick': QUICK_T, 'thorough': ALL},
+         {'name': 'C03_Append', 'types': {'quick': QUICK_T + ['uintptr', 'NamedInt16'], 'thorough': ALL + ['NamedInt16', 'NamedUint8', 'NamedFloat32']},
           'params': {'quick': {'MaxC': 3, 'MaxK': 3, 'MaxKS': 2}, 'thorough': {'MaxC': 4, 'MaxK': 4, 'MaxKS': 4}}, 'covers': ['in-place', 'grown']},
          {'name': 'C03_SelfAppend', 'types': {'quick': QUICK_T, 'thorough': ALL},
           'params': {'quick': {'MaxC': 3, 'MaxK': 3}, 'thorough': {'MaxC': 4, 'MaxK': 4}}, 'covers': ['self-nonempty']},
+         {'name': 'C03_ThenOther', 'types': {'quick': ['int8', 'float64'], 'thorough': QUICK_T},
+          'params': {'quick': {'MaxC': 2, 'MaxK': 3}, 'thorough': {'MaxC': 3, 'MaxK': 4}}, 'covers': ['second-growth'], 'opts': {'pool_mode': 'all'}},
          {'name': 'C03_Twice', 'types': {'quick': ['int8', 'float64'], 'thorough': ALL},
           'params': {'quick': {'MaxC': 2, 'MaxK': 2, 'MaxKS': 2}, 'thorough': {'MaxC': 3, 'MaxK': 3, 'MaxKS': 3}}},
      ],
@@ -358,4 +360,9 @@ for _p in ('C06', 'C07', 'C08', 'C09'):
 
 for _p in ('C06', 'C07'):
     for _h in PROPS[_p]['harnesses']:
-        _h['params'] = {'quick': {'BigLayout': 1, 'BigFrames': 600}, 'thorough': {'BigLayout': 1, 'BigFrames': 4096}}
+        _h['params'] = {'quick': {'BigLayout': 1, 'BigFrames': 603}, 'thorough': {'BigLayout': 1, 'BigFrames': 4099}}
+PROPS['C07']['harnesses'] += [
+    {'name': 'C07_History_SignedThenUnsigned', 'types': {'quick': [('int8', 'uint8', 'int16')], 'thorough': [('int8', 'uint8', 'int16'), ('int8', 'uint8', 'int64'), ('int16', 'uint16', 'int32')]},
+     'params': {'quick': {'HistFrames': 1100}, 'thorough': {'HistFrames': 4100}}, 'covers': ['history'], 'opts': {'pool_mode': 'hit'}},
+    {'name': 'C07_History_UnsignedThenSigned', 'types': {'quick': [('uint8', 'int8', 'uint16')], 'thorough': [('uint8', 'int8', 'uint16'), ('uint8', 'int8', 'uint32'), ('uint16', 'int16', 'uint64')]},
+     'params': {'quick': {'HistFrames': 1100}, 'thorough': {'HistFrames': 4100}}, 'covers': ['history'], 'opts': {'pool_mode': 'hit'}}]
